@@ -742,20 +742,28 @@ func (s *Sim) acquire(p unsafe.Pointer, write bool, site string) {
 	}
 }
 
-func (s *Sim) release(p unsafe.Pointer, write bool) {
+// release drops the cooperative lock; it reports whether the lock was held (a
+// task that is being killed runs its deferred unlocks even when it died inside
+// a condition wait, i.e. without the lock).
+func (s *Sim) release(p unsafe.Pointer, write bool) bool {
 	s.mu.Lock()
+	defer s.mu.Unlock()
 	ls := s.locks[p]
-	if ls != nil {
-		if write {
-			ls.writer = nil
-		} else if ls.readers > 0 {
-			ls.readers--
-		}
-		if ls.writer == nil && ls.readers == 0 {
-			delete(s.locks, p)
-		}
+	if ls == nil {
+		return false
 	}
-	s.mu.Unlock()
+	held := false
+	if write {
+		held = ls.writer != nil
+		ls.writer = nil
+	} else if ls.readers > 0 {
+		held = true
+		ls.readers--
+	}
+	if ls.writer == nil && ls.readers == 0 {
+		delete(s.locks, p)
+	}
+	return held
 }
 
 func MuLock(m *sync.Mutex, site string) {
@@ -766,10 +774,12 @@ func MuLock(m *sync.Mutex, site string) {
 }
 
 func MuUnlock(m *sync.Mutex, site string) {
-	m.Unlock()
 	if s := cur.Load(); s != nil {
-		s.release(unsafe.Pointer(m), true)
+		if !s.release(unsafe.Pointer(m), true) {
+			return
+		}
 	}
+	m.Unlock()
 }
 
 func MuTryLock(m *sync.Mutex, site string) bool {
@@ -801,10 +811,12 @@ func RWLock(m *sync.RWMutex, site string) {
 }
 
 func RWUnlock(m *sync.RWMutex, site string) {
-	m.Unlock()
 	if s := cur.Load(); s != nil {
-		s.release(unsafe.Pointer(m), true)
+		if !s.release(unsafe.Pointer(m), true) {
+			return
+		}
 	}
+	m.Unlock()
 }
 
 func RWRLock(m *sync.RWMutex, site string) {
@@ -815,10 +827,12 @@ func RWRLock(m *sync.RWMutex, site string) {
 }
 
 func RWRUnlock(m *sync.RWMutex, site string) {
-	m.RUnlock()
 	if s := cur.Load(); s != nil {
-		s.release(unsafe.Pointer(m), false)
+		if !s.release(unsafe.Pointer(m), false) {
+			return
+		}
 	}
+	m.RUnlock()
 }
 
 // OnceDo serialises callers of a sync.Once cooperatively (sync.Once blocks
